@@ -6,7 +6,7 @@ one separator (which std appends when an *empty* path is pushed).  Hence compone
 throughout, equal Booleans, and byte equality right after any push of a non-empty path.
 -/
 import TypedPathVerif.Spec.StdBuf
-import TypedPathVerif.Props.C04
+import TypedPathVerif.Lemmas.Append
 import TypedPathVerif.Props.C09
 import TypedPathVerif.Props.C13
 
